@@ -226,6 +226,20 @@ def r4_repr(rep, ctx):
                         found = True
         n += 1
         rep.check(found, "C20.R4", "%s.__repr__:shows-unit" % cname, "%s.__repr__ formats the object's own unit" % cname, "%s.__repr__ does not show the object's unit" % cname, fn=fn)
+    # __str__: every way of producing the text ends with the unit (the suffix, or a formatting method that appends it)
+    SHOWS = ("GetFormattedSuffix", "GetFormatted", "GetUnit", "__repr__")
+    for cname in ("Scalar", "Array", "FractionScalar", "FixedArray"):
+        fn = m.own_method(cname, "__str__")
+        if fn is None:
+            continue
+        res = Resolver(m, fn)
+        rets = [r for r in own_nodes(fn.node) if isinstance(r, ast.Return)]
+        for i_, r in enumerate(sorted(rets, key=program_order(fn.node))):
+            n += 1
+            t = res.term(r.value) if r.value is not None else ("const", None)
+            ok = all(any((s_[0] == "call" and s_[1][0] in ("field", "attr") and (s_[1][1] if s_[1][0] == "field" else s_[1][2]) in SHOWS) or s_ == ("field", "unit") for s_ in walk(a_)) for a_ in alternatives(t))
+            rep.check(ok, "C20.R4", "%s.__str__:shows-unit:%d" % (cname, i_), "every text %s.__str__ can return carries the unit" % cname,
+                      "%s.__str__ can return `%s`, which does not show the unit (a shortcut for some contents: the value prints without its unit)" % (cname, norm(ast.unparse(r.value))[:60] if r.value is not None else None), node=r, fn=fn)
     # GetFormattedSuffix: unit defaults to GetUnit(), and the unit is what is formatted
     fn = m.method("AbstractValueWithQuantityObject", "GetFormattedSuffix")
     res = Resolver(m, fn)
